@@ -56,6 +56,8 @@ public:
   std::map<std::string, unsigned> TypeIds;
   std::vector<QualType> TypeList;
   const llvm::DenseSet<const Stmt *> *OtherBlockElems = nullptr; // elements owned by CFG blocks
+  std::vector<const RecordDecl *> UsedRecs; // records named by member expressions (system headers included)
+  llvm::DenseSet<const RecordDecl *> UsedRecSet;
 
   Emitter(ASTContext &C, json::OStream &J) : Ctx(C), SM(C.getSourceManager()), J(J) {}
 
@@ -333,6 +335,10 @@ public:
             if (const auto *TD = RD->getTypedefNameForAnonDecl())
               RN = TD->getName().str();
           J.attribute("rec", RN);
+          if (!RN.empty() && RD->isCompleteDefinition() && UsedRecSet.insert(RD).second)
+            UsedRecs.push_back(RD);
+          if (RD->isCompleteDefinition() && !RD->isInvalidDecl())
+            J.attribute("off", (int64_t)Ctx.getASTRecordLayout(RD).getFieldOffset(FD->getFieldIndex()));
         }
         J.attributeBegin("b");
         emitExpr(ME->getBase(), MP, false);
@@ -831,6 +837,12 @@ public:
         }
       });
       J.attributeArray("records", [&] {
+        {
+          llvm::DenseSet<const RecordDecl *> Have(Recs.begin(), Recs.end());
+          for (const RecordDecl *RD : Em.UsedRecs)
+            if (Have.insert(RD).second)
+              Recs.push_back(RD);
+        }
         for (const RecordDecl *RD : Recs) {
           if (RD->isInvalidDecl())
             continue;
